@@ -34,8 +34,9 @@ REQUIRED_THEOREMS = ["parse_never_oob", "walk_never_oob", "rejected_never_dispat
                      "malformed_reply_at_most_reset", "wrong_version_silently_ignored",
                      "rejected_never_dispatched_session", "oversize_datagram_never_dispatched",
                      "q408_never_oob", "q408_only_blocks_of_body", "q408_bounded", "q408_roundtrip", "add408Block_some_iff",
-                     "qblock_missing_represents"]
-RULE = ("q408 / qenc / qset: RFC 9177 — a client in the middle of a Q-Block1 transfer is handed 4.08 responses whose missing-blocks payload is well-formed (in / out of order, duplicates, blocks at and beyond the end of the body, beyond 2^20), non-canonical, of another major type, cut anywhere, random, up to 1 KiB; the server's add_408_block encoder on edge numbers; the Q-Block2 payload-set tests and the missing-blocks walk on received-block sets; "
+                     "qblock_missing_represents",
+                     "q2_recovery_request_bounded", "q2_bookkeeping_invariant", "q2_recovery_inside_body", "q2_burst_bounded"]
+RULE = ("qreq / qsend: one coap_request_missing_q_block2 on received-block sets aimed at payload-set boundaries (with / without the M variant, total_len around block boundaries and beyond 2^20 blocks) and coap_send_q_blocks from every position relative to a payload-set boundary and the end of the body, against Model/QBlock.lean reqMissingQ2 / sendQNon; q408 / qenc / qset: RFC 9177 — a client in the middle of a Q-Block1 transfer is handed 4.08 responses whose missing-blocks payload is well-formed (in / out of order, duplicates, blocks at and beyond the end of the body, beyond 2^20), non-canonical, of another major type, cut anywhere, random, up to 1 KiB; the server's add_408_block encoder on edge numbers; the Q-Block2 payload-set tests and the missing-blocks walk on received-block sets; "
         "hseq: sequences of 1-8 hostile datagrams (targeted at the state: matching token/mid/path, hostile Block/Observe/ETag/OSCORE option values; field-mutated; random) delivered to a live server (idle / holding an observation / holding a partial Block1 body) or to a client with an outstanding request, from the peer's own or a foreign address, followed by a canary request that must be answered; "
         "hparse: byte strings (blind random at lengths 0..64 and a few long ones; valid encodings; 1-4 field-level mutations of valid "
         "encodings) through the receive gate for udp/tcp/ws at log levels 0, 4, 7, 8 under ASan+UBSan with a null log handler so that "
@@ -91,9 +92,10 @@ BORROWED_C05 = ("tcp", "ws")
 #   q408  a client in the middle of a Q-Block1 transfer is handed 4.08 responses with arbitrary payloads (the missing-blocks
 #         CBOR sequence): blocks sent again, how the branch ends, no read behind the payload (ASan-poisoned), no leak;
 #   qenc  the server's add_408_block() encoder;  qset  the Q-Block2 payload-set tests and the gap walk of the missing-blocks loops
-QBLOCK_OPS = ("q408", "qenc", "qset")
+QBLOCK_OPS = ("q408", "qenc", "qset", "qreq", "qsend")
 HARNESS_FOR_OP = {"hparse": harness, "hseq": harness_seq,
                   "q408": lambda ctx: _p9().harness(ctx), "qenc": lambda ctx: _p9().harness(ctx), "qset": lambda ctx: _p9().harness(ctx),
+                  "qreq": lambda ctx: _p9().harness(ctx), "qsend": lambda ctx: _p9().harness(ctx),
                   "crcv": lambda ctx: _p9().harness(ctx), "srcv2": lambda ctx: _p9().harness(ctx), "xmit1": lambda ctx: _p9().harness(ctx),
                   "tcp": lambda ctx: _p5().harness(ctx), "ws": lambda ctx: _p5().harness(ctx)}
 
@@ -185,6 +187,40 @@ def gen_qblock(ctx, n):
         elif c < 0.6:
             ns = list(range(0, rng.randint(0, top))) + ns          # a received prefix, then scattered blocks
         out.append("qset %d %d %s" % (mp, rng.choice([0, 0, 1, 2, top // mp, rng.randint(0, 30)]), ",".join(map(str, ns)) or "-"))
+    # qreq: ONE coap_request_missing_q_block2 on received-block sets aimed at payload-set boundaries: gaps that straddle a
+    # boundary, a received prefix that ends one short of / at / one behind a boundary, trailing blocks up to total_len (in / not
+    # in the payload set of the first gap), total_len at / one byte around a block boundary, the M variant
+    for _ in range(n // 2):
+        mp = rng.choice([1, 2, 3, 3, 4, 10, 10, 16])
+        szx = rng.choice([0, 0, 0, 1, 2, 6])
+        chunk = 16 << szx
+        nb = rng.choice([1, 2, mp - 1, mp, mp + 1, 2 * mp, 2 * mp + 1, 3 * mp - 1, 7, 25, 60])
+        nb = max(nb, 1)
+        c = rng.random()
+        if c < 0.35:
+            ns = list(range(0, rng.choice([0, 1, mp - 1, mp, mp + 1, 2 * mp - 1, 2 * mp, rng.randint(0, nb)])))
+        elif c < 0.5:
+            ns = []
+        else:
+            ns = list(range(0, rng.choice([0, 0, 1, mp, rng.randint(0, nb)])))
+        for _ in range(rng.choice([0, 0, 1, 2, 4, 9])):
+            ns.append(rng.choice([rng.randint(0, nb + 2), rng.randint(0, nb + 2), mp - 1, mp, mp + 1, 2 * mp, nb - 1, nb, 2 ** 20 - 1]))
+        if rng.random() < 0.3:
+            rng.shuffle(ns)
+        total = max(0, nb * chunk - rng.choice([0, 0, 1, chunk - 1, chunk, chunk + 1]) + rng.choice([0, 0, 0, 1]))
+        if rng.random() < 0.06:
+            total = rng.choice([0, 1, 2 ** 24, 2 ** 24 + 1, 2 ** 31 - 1])
+        out.append("qreq %d %d %d %d %s" % (mp, rng.choice([0, 0, 1]), szx, total, ",".join(map(str, ns)) or "-"))
+    # qsend: coap_send_q_blocks from every position relative to a payload-set boundary and to the end of the body
+    for _ in range(n // 3):
+        mp = rng.choice([1, 2, 3, 3, 4, 10, 10, 16, 255])
+        szx = rng.choice([0, 0, 0, 1, 2, 6])
+        chunk = 16 << szx
+        nb = rng.choice([2, 3, mp, mp + 1, 2 * mp, 2 * mp + 1, 7, 25, 40])
+        nb = max(2, min(nb, 60000 // chunk))
+        body_len = (nb - 1) * chunk + rng.choice([1, chunk // 2, chunk - 1, chunk])
+        num = rng.choice([0, 1, mp - 2, mp - 1, mp, mp + 1, 2 * mp - 1, nb - 3, nb - 2, nb - 1, nb, nb + 1, rng.randint(0, nb), 2 ** 20 - 1])
+        out.append("qsend %d %d %d %d %d" % (mp, szx, body_len, max(0, num), rng.choice([1, 1, 1, 0])))
     return out
 
 
@@ -197,6 +233,34 @@ def judge_qblock(ctx, c):
     if " LEAK=" in i:
         return ("spec", "memory is leaked on this input: %s" % i[:150])
     w = c["input"].split()
+    if w[0] == "qreq" and i.startswith("ranges="):
+        # I against the property: one recovery request = at most MAX_PAYLOADS options, strictly increasing, of ONE payload set,
+        # in the transfer's block size, each below a recorded block or with its offset inside total_len
+        mp, szx, total = int(w[1]), int(w[3]), int(w[4])
+        rec = [int(x) for x in w[5].split(",")] if w[5] != "-" else []
+        req = i.split()[1][4:]
+        if "!" in req or "unparsable" in req:
+            return ("spec", "a recovery request carries a Q-Block2 option in another block size / is not a CoAP message: %s" % req[:120])
+        qs = [tuple(map(int, t.split("."))) for t in req.split(",")] if req != "-" else []
+        nums = [q[0] for q in qs]
+        if len(qs) > mp or any(a >= b for a, b in zip(nums, nums[1:])) or len({n // mp for n in nums}) > 1:
+            return ("spec", "a recovery request names more than MAX_PAYLOADS blocks / a block twice / blocks of several payload sets: %s" % req[:150])
+        for n in nums:
+            if not (n * (16 << szx) < total or any(n < r for r in rec)):
+                return ("spec", "a recovery request names block %d: beyond total_len %d and above every recorded block" % (n, total))
+    if w[0] == "qsend" and i.startswith("first="):
+        mp, szx, body_len, num = int(w[1]), int(w[2]), int(w[3]), int(w[4])
+        chunk = 16 << szx
+        for part, start in ((i.split()[0][6:], 0), (i.split()[1][5:] if len(i.split()) > 1 and i.split()[1].startswith("next=") else "-", num + 1)):
+            ts = part.split("+") if part != "-" else []
+            if any("!" in t or "." not in t for t in ts):
+                return ("spec", "coap_send_q_blocks sent something that is not a block of the body: %s" % part[:150])
+            bl = [tuple(map(int, t.split(":")[0].split("."))) + (int(t.split(":")[1]),) for t in ts]
+            if len(bl) > mp + (1 if start == 0 and mp <= 2 else 0):
+                return ("spec", "a burst of %d datagrams with MAX_PAYLOADS %d" % (len(bl), mp))
+            for k, (n, mm, ln) in enumerate(bl):
+                if n != start + k or n * chunk >= body_len or ln != min(chunk, body_len - n * chunk) or mm != (1 if (n + 1) * chunk < body_len else 0):
+                    return ("spec", "coap_send_q_blocks sent %d.%d:%d: not the next block of the body (%d bytes, block size %d)" % (n, mm, ln, body_len, chunk))
     if w[0] == "q408" and not i.startswith("bad-op"):
         # I against the property: whatever the payload says, a block sent again is a block of the body, with its exact bytes' length
         szx, body_len = int(w[1]), int(w[2])
@@ -571,4 +635,12 @@ def search(ctx, tie_breaks, proof):
 
 
 def known(ctx, c):
+    # open finding c02-qblock2-num-2e20: total_len (the peer's Size2, or offset + length + 1 of a block NUM 2^20 - 1 with M) says the
+    # body has more than 2^20 blocks of this size and block 2^20 is the next one to ask for: the request carries a 4-byte Q-Block2
+    # value (not a Block option).  Exactly: the model itself names a block >= 2^20 and the implementation's datagram does not parse.
+    w = c["input"].split()
+    if w[0] == "qreq" and "req=unparsable" in (c["impl"] or "") and " req=" in (c["model"] or ""):
+        req = c["model"].split(" req=")[1].split()[0]
+        if req != "-" and any(int(t.split(".")[0]) >= 2 ** 20 for t in req.split(",")):
+            return "c02-qblock2-num-2e20"
     return None
